@@ -269,6 +269,10 @@ impl<'tokens> Parser<'tokens> {
     }
 
     pub(crate) fn bump(&mut self) {
+        // the sink adds whitespace and comments on its own, an `AddToken` event always stands
+        // for the next token that isn't trivia. so that has to be the token we step over here,
+        // even when nobody looked at the current token (and skipped the trivia) before
+        self.skip_trivia();
         self.clear_expected_syntaxes();
         self.events.push(Some(Event::AddToken));
         self.token_idx += 1;
